@@ -30,6 +30,9 @@ harnesses! {
 }
 
 // non-short-circuit on purpose: one solver term instead of one path per character class
+pub const KF_LOG_WITHOUT_EXPR: u32 = 4001;
+pub const KF_MARKUP_IN_TEXT: u32 = 4002;
+
 fn alnum(c: char) -> bool { ((c >= 'a') & (c <= 'z')) | ((c >= 'A') & (c <= 'Z')) | ((c >= '0') & (c <= '9')) }
 
 fn sname(i: u32) -> String { format!("s{}", i) }
@@ -251,7 +254,10 @@ fn content_nesting() {
     let has_else = vnd_bool(2);
     let per_branch = vnd_conc(vnd_range(1, 2, 3), 2);
     let with_foreach = vnd_bool(4);
-    let mut t = String::from("<scxml version=\"1.0\" datamodel=\"rfsm-expression\" initial=\"a\"><state id=\"a\"><onentry>\n<raise event=\"before\"/>\n<if cond=\"c0\">");
+    let with_bare_log = vnd_bool(5);
+    let mut t = String::from("<scxml version=\"1.0\" datamodel=\"rfsm-expression\" initial=\"a\"><state id=\"a\"><onentry>\n<raise event=\"before\"/>\n");
+    if with_bare_log { t.push_str("<log label=\"L\"/>"); }
+    t.push_str("<if cond=\"c0\">");
     let mut want: Vec<String> = Vec::new();
     let mut b = 0;
     let branch = |i: u32, t: &mut String| -> String { let mut s = String::new(); let mut k = 0; while k < per_branch { t.push_str(format!("<raise event=\"b{}_{}\"/>", i, k).as_str()); s.push_str(format!("b{}_{},", i, k).as_str()); k += 1; } s };
@@ -268,13 +274,17 @@ fn content_nesting() {
     let fsm = res.unwrap();
     let a = fsm.get_state_by_name(&"a".to_string());
     let blk = fsm.executableContent.get(&a.onentry[0]).unwrap();
-    let expect_len = if with_foreach { 4 } else { 3 };
-    vnd_check(421, a.onentry.len() == 1 && blk.len() == expect_len && raise_name(&blk[0]) == "before" && raise_name(&blk[expect_len - 1]) == "after");
+    let expect_len = (if with_foreach { 4 } else { 3 }) + (if with_bare_log { 1 } else { 0 });
+    // known finding 4001: a <log> without 'expr' is dropped by the reader
+    vnd_check_kf(421, a.onentry.len() == 1 && blk.len() == expect_len && raise_name(&blk[0]) == "before" && raise_name(&blk[blk.len() - 1]) == "after"
+        && (!with_bare_log || blk[1].get_type() == TYPE_LOG), KF_LOG_WITHOUT_EXPR, with_bare_log);
+    let mut ifx = 1; while ifx < blk.len() && blk[ifx].get_type() != TYPE_IF { ifx += 1; }
+    vnd_assume(ifx + 1 < blk.len());
     let mut got = Vec::new();
-    if_chain(&fsm, &blk[1], &mut got, 0);
+    if_chain(&fsm, &blk[ifx], &mut got, 0);
     vnd_check(422, got == want);
     if with_foreach {
-        let ok = match blk[2].as_ref().as_any().downcast_ref::<ForEach>() {
+        let ok = match blk[ifx + 1].as_ref().as_any().downcast_ref::<ForEach>() {
             None => false,
             Some(f) => f.item == "it" && f.index == "ix" && match &f.array { Data::Source(c) => c.source == "arr", _ => false }
                 && match fsm.executableContent.get(&f.content) { Some(fb) => fb.len() == 2 && raise_name(&fb[0]) == "f1" && raise_name(&fb[1]) == "f2", None => false },
@@ -318,7 +328,7 @@ fn elements() {
     let q = if vnd_bool(2) { '"' } else { '\'' };
     let cmt = if vnd_bool(3) { "<!-- a <comment> -->\n  " } else { "" };
     let payload = vnd_conc(vnd_range(0, 2, 4), 2);          // 0 = params, 1 = <content expr>, 2 = <content>text</content>
-    let data_form = vnd_conc(vnd_range(0, 2, 5), 2);        // 0 = expr attribute, 1 = child text, 2 = neither
+    let data_form = vnd_conc(vnd_range(0, 4, 5), 4);        // 0 = expr attribute, 1 = child text, 2 = neither, 3 = text + comment, 4 = CDATA
     let send_form = vnd_bool(6);                            // literal vs *expr attributes
     let auto = vnd_bool(7);
     let mut t = String::new();
@@ -329,6 +339,8 @@ fn elements() {
     match data_form {
         0 => t.push_str(format!("<{p}data id={q}l1{q} expr={q}x &amp;&amp; y{q}/>", p = p, q = q).as_str()),
         1 => t.push_str(format!("<{p}data id={q}l1{q}>\n x &amp;&amp; y \n</{p}data>", p = p, q = q).as_str()),
+        3 => t.push_str(format!("<{p}data id={q}l1{q}>x &amp;&amp; y <!-- c --></{p}data>", p = p, q = q).as_str()),
+        4 => t.push_str(format!("<{p}data id={q}l1{q}><![CDATA[x && y]]></{p}data>", p = p, q = q).as_str()),
         _ => t.push_str(format!("<{p}data id={q}l1{q}/>", p = p, q = q).as_str()),
     }
     t.push_str(format!("</{p}datamodel>\n", p = p).as_str());
@@ -378,7 +390,8 @@ fn elements() {
     vnd_check(441, root.data.len() == 2 && dval(root, "g1") == Some("1 < 2".to_string()) && dval(root, "g2") == Some("[1,2]".to_string()));
     let a = fsm.get_state_by_name(&"a".to_string());
     let want_l1 = if data_form == 2 { "" } else { "x && y" };
-    vnd_check(442, a.data.len() == 1 && dval(a, "l1") == Some(want_l1.to_string()));
+    // known finding 4002: a comment or CDATA section inside element text is kept verbatim (and switches entity resolution off)
+    vnd_check_kf(442, a.data.len() == 1 && dval(a, "l1") == Some(want_l1.to_string()), KF_MARKUP_IN_TEXT, data_form >= 3);
     // invokes
     let mut inv: Vec<&Invoke> = Vec::new(); for i in a.invoke.iterator() { inv.push(i); }
     vnd_check(443, inv.len() == 2);
